@@ -75,6 +75,10 @@ func main() {
 		c03(r, *tier, tr, extra)
 	case "C05":
 		c05(r, *tier, tr, extra)
+	case "C12":
+		c12(r, *tier, tr, extra)
+	case "C13":
+		c13(r, *tier, tr, extra)
 	default:
 		fmt.Fprintln(os.Stderr, "unknown prop")
 		os.Exit(2)
